@@ -172,7 +172,10 @@ def load(config, repo=None):
         f = json.load(fh)
     if f.get("tree_hash") != th or f.get("config") != config:
         raise RuntimeError("stale fact file %s (tree hash %s, expected %s)" % (path, f.get("tree_hash"), th))
+    from . import canon
+    renames = canon.canonicalise(f)
     facts = Facts(f, repo)
+    facts.canon = renames
     _cache[path] = facts
     return facts
 
